@@ -158,7 +158,7 @@ func zzNativeKx(ida, idb []byte) {
 //
 //verif:property C13
 //verif:expect-reach end
-//verif:bound abstract group of order 257; peer ephemeral = arbitrary pair of 2-byte coordinates that is not a point, or the pair (0,0)
+//verif:bound abstract group of order 257; peer ephemeral = arbitrary pair of 4-byte coordinates that is not a point, or the pair (0,0); both roles (initiator receiving R_B, responder receiving R_A)
 //verif:stub-symbolic github.com/tjfoc/gmsm/sm2.kdf zzStubKdf13
 //verif:stub-symbolic github.com/tjfoc/gmsm/sm3.Sm3Sum zzStubSm3Sum13
 //verif:stub-symbolic github.com/tjfoc/gmsm/sm2.ZA zzStubZA13
@@ -171,7 +171,13 @@ func zzH_c13_reject() {
 		dB, _ := GenerateKey(rand.Reader)
 		rB, _ := GenerateKey(rand.Reader)
 		bad := &PublicKey{Curve: P256Sm2(), X: big.NewInt(int64(vChoice("zero", 2))), Y: big.NewInt(int64(vChoice("zero", 2)))}
-		k, _, _, err := KeyExchangeB(16, ida, idb, dB, &dA.PublicKey, rB, bad)
+		var k []byte
+		var err error
+		if vChoice("role", 2) == 0 {
+			k, _, _, err = KeyExchangeB(16, ida, idb, dB, &dA.PublicKey, rB, bad)
+		} else {
+			k, _, _, err = KeyExchangeA(16, ida, idb, dA, &dB.PublicKey, rB, bad)
+		}
 		vAssert("bad-ephemeral-rejected", err != nil && k == nil)
 		return
 	}
@@ -182,11 +188,17 @@ func zzH_c13_reject() {
 	if vChoice("zero", 2) == 1 {
 		bad.X, bad.Y = new(big.Int), new(big.Int)
 	} else {
-		bad.X = new(big.Int).SetBytes(vBytes("bx", 2, 2))
-		bad.Y = new(big.Int).SetBytes(vBytes("by", 2, 2))
+		bad.X = new(big.Int).SetBytes(vBytes("bx", 4, 4))
+		bad.Y = new(big.Int).SetBytes(vBytes("by", 4, 4))
 		vAssume(!g.IsOnCurve(bad.X, bad.Y))
 	}
-	k, _, _, err := KeyExchangeB(16, ida, idb, dB, &dA.PublicKey, rB, bad)
+	var k []byte
+	var err error
+	if vChoice("role", 2) == 0 {
+		k, _, _, err = KeyExchangeB(16, ida, idb, dB, &dA.PublicKey, rB, bad)
+	} else {
+		k, _, _, err = KeyExchangeA(16, ida, idb, dA, &dB.PublicKey, rB, bad)
+	}
 	vAssert("bad-ephemeral-rejected", err != nil && k == nil)
 	vReach("end")
 }
